@@ -380,6 +380,20 @@ func (ct *c37Tree) negAlias(p *Proof, set []uint64, pi int, st *c37Stats) error 
 		return nil
 	}
 	d := uint(p.TreeDepth)
+	{
+		// same TreeDepth, a position beyond the tree width whose low bits equal the true position: out of range
+		p2 := set[pi] + (1 << d)
+		if ct.vc && pi%2 == 1 {
+			p2 = set[pi] + (3 << d)
+		}
+		em := ct.elemsMap(set)
+		delete(em, set[pi])
+		em[p2] = ct.elems[set[pi]]
+		st.negatives++
+		if err := ct.reject(fmt.Sprintf("position %d presented at %d (beyond the tree width)", set[pi], p2), ct.root, em, p); err != nil {
+			return err
+		}
+	}
 	q := c37CloneProof(p)
 	q.TreeDepth = p.TreeDepth + 1
 	cand := []uint64{set[pi] + (1 << d)}
